@@ -315,13 +315,24 @@ def run (toks : List String) : Option String :=
     let cfg ← parseCfg cfgStr
     let method ← (if method = "P" then some Method.onPublish else if method = "R" then some Method.onPubrel else none)
     let faults ← (if faults = "-" then some [] else (faults.splitOn ",").mapM parseFault)
-    let evs ← evs.mapM parseEv
+    -- one script token = one or more model events (`dialw:N`: the dial succeeds and the write of CONNECT fails —
+    -- for the loop the same as a refused connection attempt)
+    let toks ← evs.mapM (fun t => match t.splitOn ":" with
+      | ["dialw", i] => do pure [Ev.dialOk (← i.toNat?), Ev.connackRefused]
+      | _ => do pure [← parseEv t])
+    -- `dialw` only means something while a dial is in flight (otherwise the whole token is ignored, like `dial+`)
+    let applyTok (w : World) (es : List Ev) : World :=
+      match es with
+      | Ev.dialOk i :: Ev.connackRefused :: rest =>
+        if w.phase = .dialGate then (Ev.dialOk i :: Ev.connackRefused :: rest).foldl step w else rest.foldl step w
+      | _ => es.foldl step w
     -- Timing assumption of the correspondence run, made explicit: unless the configuration asks for a long
     -- back-off (`w1`), the harness sets a back-off base so short that the timer fires before the next
     -- scripted event, i.e. every event is followed by `.waitElapsed` (a no-op outside `.backoff`).
     -- With `w1` the script says itself when the timer fires (`wait`).
     let auto := !(cfgStr.endsWith "w1")
-    let evs := if auto then evs.flatMap (fun e => [e, Ev.waitElapsed]) else evs
+    let toks := if auto then toks.map (· ++ [Ev.waitElapsed]) else toks
+    let evs := toks.flatten
     let s : Script := { cfg, method, faults, evs }
     -- harness convention: messages 3, 7, 11, … with QoS > 0 carry a caller-chosen identifier 20000 + m
     -- (Message.ID already set when Publish is called: `pubAttempt` finds it in `pid` and draws none)
@@ -329,8 +340,8 @@ def run (toks : List String) : Option String :=
       | .app (.pub m q) => if m % 4 = 3 ∧ q > 0 then some (m, 20000 + m) else none
       | _ => none)
     let w0 : World := { init s with pid := presets }
-    let ws := (evs.foldl (fun (acc : World × List World) e => let w := step acc.1 e; (w, acc.2 ++ [w])) (w0, [])).2
-    let ws := if auto then (ws.zipIdx.filter (fun (_, i) => i % 2 = 1)).map (·.1) else ws
+    -- one world per script token (after all of its events)
+    let ws := (toks.foldl (fun (acc : World × List World) es => let w := applyTok acc.1 es; (w, acc.2 ++ [w])) (w0, [])).2
     let final := ws.getLastD w0
     let settled := final.taskQ.isEmpty && final.retryQ.isEmpty && !final.stuck && (match final.phase with | .up k => (getConn final k).alive | _ => false)
     pure (showWorld final ++ " || " ++ String.intercalate ";" (ws.map planOf) ++
